@@ -15,7 +15,7 @@ PAIRS = [(1, 1), (6, 6), (9, 9), (10, 10), (7, 7), (0, 0), (11, 11), (16, 16), (
          (3, 1), (5, 1), (4, 6), (0, 5),
          (14, 13), (15, 13),
          (17, 16), (6, 18), (8, 18), (5, 18)]
-FORMS_FIXED = [(0, 0), (0, 1), (1, 0), (1, 1), (2, 0), (3, 0), (3, 1), (4, 0), (5, 0), (6, 0), (7, 0)]
+FORMS_FIXED = [(0, 0), (0, 1), (1, 0), (1, 1), (2, 0), (3, 0), (3, 1), (4, 0), (5, 0), (6, 0), (7, 0), (8, 0), (9, 0)]
 FORMS_VARYING = [(0, 0), (0, 1), (1, 0), (2, 0)]
 
 
@@ -23,7 +23,7 @@ def catalogue():
     cases = []
     for (t, u) in PAIRS:
         for (f, rv) in FORMS_FIXED:
-            if u == 0 and f in (5, 7):
+            if u == 0 and f in (5, 7, 9):
                 continue                # no std::vector<bool>::iterator games
             cases.append((t, u, f, rv, 0))
         for (f, rv) in FORMS_VARYING:
@@ -85,7 +85,9 @@ def gen_scripts(rng, unit, nscripts):
             else:
                 n = rng.choice([0, 1, 2, 3, 5])
                 # iterator forms: more items are available than the parameter holds
-                extra = rng.choice([0, 0, 2]) if f in (4, 5, 6, 7) else 0
+                extra = rng.choice([0, 0, 2]) if f in (4, 5, 6, 7, 8, 9) else 0
+                if f == 8:
+                    n = rng.choice([0, 1, 3, 5, 40])     # long enough to cross a deque block
             if u == 9 and t in (5, 6) or u == 10 and t in (7, 8):
                 pass
             vals = [rand_value(u, rng, t) for _ in range(n + extra)]
